@@ -111,7 +111,8 @@ def is_pre_scheduler_body(b):
     return b.kind == "coroutine" and b.coroutine_kind and "Fn" in b.coroutine_kind
 
 
-def T1(ctx, rule="T1"):
+def T1(ctx, rule="T1", kinds=None):
+    """kinds: restrict the exit kinds checked (C07 uses FAILED only, C08 INTERRUPTED only)"""
     m, fb = ctx.model, ctx.fb
     sites = release_sites(ctx)
     n = 0
@@ -125,6 +126,8 @@ def T1(ctx, rule="T1"):
             need.append("INTERRUPTED")
         if fam == "try_for_each":
             need.append("FAILED")
+        if kinds is not None:
+            need = [k for k in need if k in kinds]
         for k in need:
             cands = [s for s in mine if s["kind"] == k]
             if k == "EMPTY":
@@ -142,7 +145,7 @@ def T1(ctx, rule="T1"):
                     "FAILED": "no release of the done-sender on the Err arm of the user future: a failure leaves the queuer waiting",
                 }[k]
                 ctx.bad(rule, "%s|%s" % (k, e["name"]), where, "%s (path family %s)" % (what, fam))
-        if fam == "try_fold":
+        if fam == "try_fold" and (kinds is None or "FAILED" in kinds):
             # on the `?` path the error value must not carry the done-sender
             n += 1
             T1_try_fold_failed(ctx, rule, e, where)
@@ -155,6 +158,8 @@ def T1(ctx, rule="T1"):
         for s in mine:
             holders.add(s["body"].root)
         for k in ("EMPTY", "FINISHED"):
+            if kinds is not None:
+                continue
             n += 1
             c = [s for s in mine if s["kind"] == k]
             ctx.check(bool(c), rule, "READY-%s|%s" % (k, e["name"]), where,
